@@ -226,6 +226,28 @@ func (a *Adv) MembershipProbes() int {
 				}
 			}
 		}
+		// a contract formed by this transaction claimed as the parent of a revision later in the same block: it has no
+		// accumulator position yet, and whatever a validator makes of "created earlier in this block", a parent whose
+		// terms (keys, payout address) differ from the contract that was formed is an element nobody created. The
+		// revision is signed by the keys the forged parent names.
+		for ci := range orig.FileContracts {
+			forged := orig.FileContracts[ci]
+			forged.RenterPublicKey, forged.HostPublicKey = otherKey(forged.RenterPublicKey), otherKey(forged.HostPublicKey)
+			forged.RenterOutput.Address = otherAddr(forged.RenterOutput.Address)
+			rev := forged
+			rev.RevisionNumber++
+			extra := types.V2Transaction{FileContractRevisions: []types.V2FileContractRevision{{
+				Parent:   types.V2FileContractElement{ID: orig.V2FileContractID(orig.ID(), ci), StateElement: types.StateElement{LeafIndex: types.UnassignedLeafIndex}, V2FileContract: forged},
+				Revision: rev,
+			}}}
+			SignV2(a.CS, &extra, SignOpts{})
+			blk := CloneBlock(a.Honest)
+			blk.V2.Transactions = append(blk.V2.Transactions, extra)
+			if a.emit(blk, "v2-parent/contract-revision/forged-terms-of-contract-formed-in-block", "reject", nil, nil) {
+				n++
+			}
+			break
+		}
 		for ri := range orig.FileContractResolutions {
 			if sp, ok := orig.FileContractResolutions[ri].Resolution.(*types.V2StorageProof); ok {
 				// a later proof of the transaction that refers to the same chain index element as an earlier one is a
